@@ -1,4 +1,165 @@
-/- oracle_c14 — placeholder driver (replaced when the C14 model is added). -/
+/-
+  oracle_c14 — line-protocol driver for the C14 models (HD wallets, BIP39, wallet key lists).
+  Byte strings are hex, "-" = empty. A wallet `W` is six tokens: <pfx> <depth> <checksum> <idx> <chcode> <key>.
+    sha512 <b> | hmac512 <key> <msg> | pbkdf2 <pw> <salt> | sha256 <b> | h160 <b>   -> ok <bytes>
+    pubpriv <k> <compr>                 -> ok <pub> | outside
+    dnpriv <p> <s>                      -> ok <bytes>
+    dnpub <pub> <secret>                -> ok <bytes> | outside
+    child W <i>                         -> ok W <string> | panic | outside
+    pub W                               -> ok W <string> | outside
+    ser W                               -> ok <string>
+    parse <string>                      -> ok W | err <kind>
+    pubaddr W                           -> ok <addr string|-> | outside
+    master <seed> <testnet>             -> ok W
+    wifenc <key> <ver> <compr>          -> ok <string> <pubkey> <h160> <addrver> | panic | outside
+    wifdec <string>                     -> ok <key> <ver> <pubkey> <h160> <addrver> | err <kind> | outside
+    mnem <entropy>                      -> ok <mnemonic> | err <kind>
+    entropy <mnemonic>                  -> ok <entropy> | err <kind>
+    m2b <mnemonic> <raw>                -> ok <bytes> | err <kind>
+    seed <mnemonic> <password>          -> ok <seed> | err <kind>
+    wallet <type> <hdpath> <bip39> <scrypt> <hdsubs> <keycnt> <testnet> <ltc> <atype> <seed=> <file> <scryptout>
+        -> ok <mnemonic> <rootX> <leafX> <nx> <xtra>… <nk> {<priv> <wif> <p2kh> <listed> <listLabel> <label> <lookup>}… | err <kind>
+-/
+import GocoinV.Model.WalletKeys
+import GocoinV.Base.Ripemd160
+import GocoinV.Base.C14_Sha512
 import GocoinV.Base.Proto
-open GocoinV
-def main : IO Unit := Proto.serve () (fun _ _ => ((), "bad-op"))
+open GocoinV HD
+
+def mkC (scryptOut : Option Bytes) : WalletCrypto :=
+  { sha256 := sha256, shaHash := sha256d, hash160 := hash160, hmac512 := hmacSha512,
+    pbkdf2 := fun pw salt => pbkdf2Sha512 pw salt 2048 64, scrypt := fun _ _ => scryptOut }
+
+def C0 : WalletCrypto := mkC none
+
+def wTok (w : HDWallet) : String :=
+  s!"{w.pfx} {w.depth} {Hex.encode w.checksum} {w.idx} {Hex.encode w.chCode} {Hex.encode w.key}"
+
+def wParse (pfx depth cs idx cc key : String) : Option HDWallet :=
+  match pfx.toNat?, depth.toNat?, Hex.decode cs, idx.toNat?, Hex.decode cc, Hex.decode key with
+  | some p, some d, some c, some i, some cc, some k =>
+    some { pfx := p, depth := d, checksum := c, idx := i, chCode := cc, key := k }
+  | _, _, _, _, _, _ => none
+
+def failStr : Fail → String | .panic => "panic" | .outside => "outside"
+def perrStr : ParseErr → String | .length => "length" | .pfx => "prefix" | .pubkey => "pubkey" | .checksum => "checksum"
+def werrStr : WifErr → String | .b58 => "b58" | .short => "short" | .long => "long" | .checksum => "checksum"
+def berrStr : Bip39.Err → String
+  | .entropyLen => "entropylen" | .invalidMnemonic => "invalid" | .wordNotFound => "notfound" | .checksum => "checksum"
+
+def bool? (s : String) : Option Bool := if s == "1" then some true else if s == "0" then some false else none
+
+def atype? (s : String) : Option WalletKeys.AType :=
+  match s with
+  | "p2kh" => some .p2kh | "segwit" => some .segwit | "bech32" => some .bech32 | "tap" => some .tap | "pks" => some .pks
+  | _ => none
+
+def int? (s : String) : Option Int :=
+  if s.startsWith "-" then (s.drop 1).toNat?.map (fun n => -(n : Int)) else s.toNat?.map (fun n => (n : Int))
+
+def optHex : Option Bytes → String | none => "-" | some b => Hex.encode b
+
+def werr : WalletKeys.WErr → String
+  | .waltype => "waltype" | .hdpath => "hdpath" | .bip39count => "bip39count" | .emptySeed => "emptyseed"
+  | .scryptMnemonic => "scryptmnemonic" | .scrypt => "scrypt" | .bip39 e => "bip39-" ++ berrStr e
+  | .hd f => "hd-" ++ failStr f
+
+def step (_ : Unit) (toks : List String) : Unit × String :=
+  let bad := ((), "bad-op")
+  match toks with
+  | ["sha512", b] => match Hex.decode b with
+    | some b => ((), s!"ok {Hex.encode (sha512 b)}") | _ => bad
+  | ["sha256", b] => match Hex.decode b with
+    | some b => ((), s!"ok {Hex.encode (sha256 b)}") | _ => bad
+  | ["h160", b] => match Hex.decode b with
+    | some b => ((), s!"ok {Hex.encode (hash160 b)}") | _ => bad
+  | ["hmac512", k, m] => match Hex.decode k, Hex.decode m with
+    | some k, some m => ((), s!"ok {Hex.encode (hmacSha512 k m)}") | _, _ => bad
+  | ["pbkdf2", p, s] => match Hex.decode p, Hex.decode s with
+    | some p, some s => ((), s!"ok {Hex.encode (pbkdf2Sha512 p s 2048 64)}") | _, _ => bad
+  | ["pubpriv", k, c] => match Hex.decode k, bool? c with
+    | some k, some c => match publicFromPrivate k c with
+      | some p => ((), s!"ok {Hex.encode p}") | none => ((), "outside")
+    | _, _ => bad
+  | ["dnpriv", p, s] => match Hex.decode p, Hex.decode s with
+    | some p, some s => ((), s!"ok {Hex.encode (deriveNextPrivate p s)}") | _, _ => bad
+  | ["dnpub", p, s] => match Hex.decode p, Hex.decode s with
+    | some p, some s => match deriveNextPublic p s with
+      | .ok b => ((), s!"ok {Hex.encode b}") | .error e => ((), failStr e)
+    | _, _ => bad
+  | ["child", a, b, c, d, e, f, i] => match wParse a b c d e f, i.toNat? with
+    | some w, some i => match child C0 w i with
+      | .ok r => ((), s!"ok {wTok r} {Hex.encode (HD.toString C0 r)}") | .error e => ((), failStr e)
+    | _, _ => bad
+  | ["pub", a, b, c, d, e, f] => match wParse a b c d e f with
+    | some w => match pub w with
+      | .ok r => ((), s!"ok {wTok r} {Hex.encode (HD.toString C0 r)}") | .error e => ((), failStr e)
+    | _ => bad
+  | ["ser", a, b, c, d, e, f] => match wParse a b c d e f with
+    | some w => ((), s!"ok {Hex.encode (HD.toString C0 w)}")
+    | _ => bad
+  | ["parse", s] => match Hex.decode s with
+    | some s => match stringWallet C0 s with
+      | .ok w => ((), s!"ok {wTok w}") | .error e => ((), s!"err {perrStr e}")
+    | _ => bad
+  | ["pubaddr", a, b, c, d, e, f] => match wParse a b c d e f with
+    | some w => match pubAddr C0 w with
+      | .ok ad => ((), s!"ok {Hex.encode (WalletKeys.addrStr C0 ad)}") | .error e => ((), failStr e)
+    | _ => bad
+  | ["master", s, t] => match Hex.decode s, bool? t with
+    | some s, some t => ((), s!"ok {wTok (masterKey C0 s t)}") | _, _ => bad
+  | ["wifenc", k, v, c] => match Hex.decode k, v.toNat?, bool? c with
+    | some k, some v, some c =>
+      if v ≥ 256 then bad else
+      match newPrivateAddr C0 k (UInt8.ofNat v) c with
+      | .error e => ((), failStr e)
+      | .ok pa => match privAddrString C0 pa with
+        | .error e => ((), failStr e)
+        | .ok s => ((), s!"ok {Hex.encode s} {Hex.encode pa.pubkey} {Hex.encode pa.h160} {pa.addrVersion.toNat}")
+    | _, _, _ => bad
+  | ["wifdec", s] => match Hex.decode s with
+    | some s => match decodePrivateAddr C0 s with
+      | .error e => ((), s!"err {werrStr e}")
+      | .ok (.error e) => ((), failStr e)
+      | .ok (.ok pa) => ((), s!"ok {Hex.encode pa.key} {pa.version.toNat} {Hex.encode pa.pubkey} {Hex.encode pa.h160} {pa.addrVersion.toNat}")
+    | _ => bad
+  | ["mnem", e] => match Hex.decode e with
+    | some e => match Bip39.newMnemonic C0 e with
+      | .ok m => ((), s!"ok {Hex.encode m}") | .error x => ((), s!"err {berrStr x}")
+    | _ => bad
+  | ["entropy", m] => match Hex.decode m with
+    | some m => match Bip39.entropyFromMnemonic C0 m with
+      | .ok e => ((), s!"ok {Hex.encode e}") | .error x => ((), s!"err {berrStr x}")
+    | _ => bad
+  | ["m2b", m, r] => match Hex.decode m, bool? r with
+    | some m, some r => match Bip39.mnemonicToByteArray C0 m r with
+      | .ok e => ((), s!"ok {Hex.encode e}") | .error x => ((), s!"err {berrStr x}")
+    | _, _ => bad
+  | ["seed", m, p] => match Hex.decode m, Hex.decode p with
+    | some m, some p => match Bip39.newSeedWithErrorChecking C0 m p with
+      | .ok e => ((), s!"ok {Hex.encode e}") | .error x => ((), s!"err {berrStr x}")
+    | _, _ => bad
+  | ["wallet", ty, hp, b39, scr, subs, cnt, tn, ltc, aty, ss, file, so] =>
+    match ty.toNat?, Hex.decode hp, int? b39, scr.toNat?, subs.toNat?, cnt.toNat?, bool? tn, bool? ltc with
+    | some ty, some hp, some b39, some scr, some subs, some cnt, some tn, some ltc =>
+      match atype? aty, Hex.decode ss, Hex.decode file, Hex.decode so with
+      | some aty, some ss, some file, some so =>
+        let C := mkC (if so.isEmpty then none else some so)
+        let cfg : WalletKeys.Config := { waltype := ty, hdpath := hp, bip39wrds := b39, usescrypt := scr, hdsubs := subs, keycnt := cnt, testnet := tn, litecoin := ltc, atype := aty, secretSeed := ss }
+        match WalletKeys.makeWallet C cfg file with
+        | .error e => ((), s!"err {werr e}")
+        | .ok w =>
+          let xs := " ".intercalate (w.xtra.map Hex.encode)
+          let ks := w.keys.map fun k =>
+            let lk := match WalletKeys.addressToKeyIdx C cfg w.keys k.listed with
+              | none => "exit" | some none => "none" | some (some i) => toString i
+            s!"{Hex.encode k.priv} {Hex.encode k.wif} {Hex.encode k.p2kh} {Hex.encode k.listed} {Hex.encode k.listLabel} {Hex.encode k.label} {lk}"
+          let head := s!"ok {optHex w.mnemonic} {optHex w.rootX} {optHex w.leafX} {w.xtra.length}"
+          let mid := if w.xtra.isEmpty then "" else " " ++ xs
+          let tail := if w.keys.isEmpty then "" else " " ++ " ".intercalate ks
+          ((), s!"{head}{mid} {w.keys.length}{tail}")
+      | _, _, _, _ => bad
+    | _, _, _, _, _, _, _, _ => bad
+  | _ => bad
+
+def main : IO Unit := Proto.serve () step
